@@ -1,13 +1,66 @@
-(* C13 (PARTIAL): the 'more' indicators tell exactly when something was dropped; first and last
-   contact stay retrievable; a header array holding a prefix yields the same signature or the
-   truncated indication.  Independence of verdict/offset/counts from the capacities is checked by
-   the correspondence run and the capacity oracle only. *)
-From Sipsp Require Import Harness Misc SigWalk.
+(* C13: caller-chosen capacities only truncate what is stored, never change the parse.
+   PROVED for the model, for the header array and the contact array of the message parser (and for
+   ParseHeaders and ParseAllContactValues on their own): two objects that differ only in these
+   capacities (fresh, reset, or suspended in the middle of any message) step in lock-step - same
+   verdict, same offset, and the same value of everything that is not an array element
+   (obs_cap_indep: first line, header count and type flags, first-of-type shortcuts, From / To /
+   Call-ID / CSeq / Content-Length / Expires / PAI values, contact count and expires summary, body,
+   raw message); the elements that are stored agree on the common stored prefix; the 'more'
+   indicators tell exactly when something was dropped; after a successful parse the first and the
+   last contact are the same whatever the capacity.  One-shot and every chunk schedule.
+   PARTIAL: the URI parameter / URI header lists (capacity oracle + correspondence only: their
+   proof needs the same relation for ul_iter / uh_iter) and the P-Asserted-Identity array (its
+   capacity is a package constant, not caller-chosen). *)
+From Sipsp Require Import Harness Misc SigWalk Sim Capacity CapHeaders.
+
+Theorem C13_message_capacity_independent : forall flags buf k m m', Rmsg m m' ->
+  res_rel Qmsg (parse_sipmsg flags buf k m) (parse_sipmsg flags buf k m').
+Proof. exact message_capacity. Qed.
+
+Theorem C13_message_capacity_independent_chunked : forall flags b cuts k m m', Rmsg m m' ->
+  res_rel Qmsg (chunked (parse_sipmsg flags) b cuts k m) (chunked (parse_sipmsg flags) b cuts k m').
+Proof. exact chunked_capacity. Qed.
+
+(* the relation holds between fresh objects of any capacities, and again after Reset *)
+Theorem C13_fresh_objects_related : forall L nh nh' nc nc',
+  Rmsg (msg_init L (repeat hdr0 nh) (repeat pfrom0 nc)) (msg_init L (repeat hdr0 nh') (repeat pfrom0 nc')).
+Proof. exact Rmsg_init. Qed.
+Theorem C13_reset_objects_related : forall m m', Rmsg_w m m' -> Rmsg (msg_reset m) (msg_reset m').
+Proof. exact Rmsg_reset. Qed.
+
+(* what the relation means for a caller (the weak form holds after every verdict) *)
+Theorem C13_same_values : forall m m', Rmsg_w m m' -> obs_cap_indep m = obs_cap_indep m'.
+Proof. exact Rmsg_w_obs. Qed.
+Theorem C13_strong_implies_weak : forall m m', Rmsg m m' -> Rmsg_w m m'.
+Proof. exact Rmsg_weaken. Qed.
+Theorem C13_stored_elements_agree : forall m m', Rmsg_w m m' ->
+  (forall j, (j < N.to_nat (hl_n (hs_l (m_hs m))))%nat -> (j < length (hl_hdrs (hs_l (m_hs m))))%nat ->
+             (j < length (hl_hdrs (hs_l (m_hs m'))))%nat ->
+             nth j (hl_hdrs (hs_l (m_hs m))) hdr0 = nth j (hl_hdrs (hs_l (m_hs m'))) hdr0) /\
+  (forall v v', hs_pv (m_hs m) = Some v -> hs_pv (m_hs m') = Some v' ->
+     forall j, (j < N.to_nat (ct_n (pv_contacts v)))%nat -> (j < length (ct_vals (pv_contacts v)))%nat ->
+               (j < length (ct_vals (pv_contacts v')))%nat ->
+               nth j (ct_vals (pv_contacts v)) pfrom0 = nth j (ct_vals (pv_contacts v')) pfrom0).
+Proof. exact Rmsg_w_prefix. Qed.
+
+(* the stand-alone parsers *)
+Theorem C13_headers_capacity_independent : forall buf k st st', Rhs st st' ->
+  res_rel Qhs (parse_headers buf k st) (parse_headers buf k st').
+Proof. exact headers_capacity. Qed.
+Theorem C13_contacts_capacity_independent : forall buf k c c', Rct c c' ->
+  res_rel Qct (parse_all_contacts buf k c) (parse_all_contacts buf k c').
+Proof. exact contacts_capacity. Qed.
+Theorem C13_fresh_contacts_related : forall n m, Rct (contacts_init (repeat pfrom0 n)) (contacts_init (repeat pfrom0 m)).
+Proof. exact Rct_init. Qed.
+Theorem C13_first_and_last_contact_same : forall c c', Qct 0 EOk c c' ->
+  ct_get c 0 = ct_get c' 0 /\ ct_get c (ct_n c - 1) = ct_get c' (ct_n c' - 1).
+Proof. exact Qct_ok_gets. Qed.
+
 Theorem C13_more_iff_dropped : 
   (forall c, ct_more c = true <-> ct_vno c < ct_n c) /\ (forall l, ul_more l = true <-> ul_pno l < ul_n l)
   /\ (forall l, uh_more l = true <-> uh_hno l < uh_n l).
 Proof. exact (conj more_iff_dropped_contacts (conj more_iff_dropped_uparams more_iff_dropped_uhdrs)). Qed.
-Theorem C13_first_and_last_contact_retrievable_partial : forall c, 0 < ct_n c ->
+Theorem C13_first_and_last_contact_retrievable : forall c, 0 < ct_n c ->
   (ct_n c <= ct_cap c -> length (ct_vals c) = N.to_nat (ct_cap c)) ->
   ct_get c 0 <> None /\ ct_get c (ct_n c - 1) <> None.
 Proof. exact first_last_contact_retrievable. Qed.
